@@ -110,6 +110,8 @@ def gen(rng, tier, shard, nshards):
         kw = {}
         if rng.random() < 0.08:
             kw = dict(kvcls='unclamped_endrep', mindeg=2)
+        elif rng.random() < 0.12:
+            kw = dict(kvcls='jump', maxextra=6)      # interior knot of multiplicity p + 1
         sd = G.rand_shape(rng, pdim, dim=dim, normalize=rng.random() < 0.7, **kw)
         yield {'kind': 'shape', 'sd': sd, 'seed': rng.randrange(1 << 30)}
 
@@ -138,7 +140,7 @@ def check(case, ctx):
               'bbox %r is not the min/max %r %r of the (unweighted) control net' % (bb, mn, mx), what='bbox-equals-net')
     # ---- targeted points ---------------------------------------------------------------------------------------------------
     with hooks.suspended():
-        prms = G.param_tuples(rng, o, 10 if pdim < 3 else 6)
+        prms = G.param_tuples(rng, o, 10 if pdim < 3 else 6, ulp=True)
         for tags, prm in prms:
             x = G.evaluate_single(o, prm)
             if not judge_point(ctx, S, prm, x, sc, 'hull/evaluate_single', 'hull'):
